@@ -38,7 +38,7 @@ type tsAny struct {
 	V interface{} `json:"v"`
 }
 
-var typedKnown = []string{"build", "point", "t", "any", "x", "a", "string"}
+var typedKnown = []string{"build", "point", "t", "any", "x", "a", "string", "byval", "nilp", "nilmap", "valmap", "filled", "chan"}
 
 func typedMaker(t string) interface{} {
 	switch t {
@@ -54,6 +54,19 @@ func typedMaker(t string) interface{} {
 		return new([]interface{})
 	case "string":
 		return new(string)
+	// result shapes a TypeMaker may have besides "nil" and "pointer to a fresh value"
+	case "byval":
+		return tsPoint{} // not a pointer: nothing can be stored
+	case "nilp":
+		return (*tsPoint)(nil) // a non-nil interface holding a nil pointer
+	case "nilmap":
+		return map[string]int(nil)
+	case "valmap":
+		return map[string]int{}
+	case "filled":
+		return &tsPoint{X: 9, Y: 9} // decoding merges into what is there
+	case "chan":
+		return new(chan int)
 	}
 	return nil
 }
@@ -131,6 +144,10 @@ func runTyped(c *Case, o *Obs, in []byte) {
 		return
 	}
 	var got []string
+	for _, t := range typed {
+		holdValue("a value DecodeSeries decoded", t.V)
+		holdString("a type name DecodeSeries returned", t.Type)
+	}
 	for _, a := range accepted {
 		o.Items = append(o.Items, [2][]int{bytesOf([]byte(a.name)), runesOf(a.raw)})
 		cj, err := canonJSON(a.raw)
@@ -176,6 +193,7 @@ func runStream(o *Obs, in []byte) {
 			return
 		}
 		o.Vals = append(o.Vals, runesOf([]byte(raw)))
+		holdBytes("a RawMessage Decode filled", []byte(raw))
 		cj, err := canonJSON([]byte(raw))
 		if err != nil {
 			cj = "E(" + err.Error() + ")"
